@@ -778,6 +778,8 @@ impl Log {
 
 	fn drop_log(&self, id: u32) -> Result<()> {
 		log::debug!(target: "parity-db", "Drop log {}", id);
+		#[cfg(parity_db_verif)]
+		crate::verif::emit("LogDelete", &[id as u64]);
 		let path = Self::log_path(&self.path, id);
 		try_io!(std::fs::remove_file(path));
 		Ok(())
@@ -863,6 +865,8 @@ impl Log {
 			total_value,
 			total_ref_count,
 		);
+		#[cfg(parity_db_verif)]
+		crate::verif::emit("EndRecord", &[record_id, appending.id as u64, appending.size, bytes]);
 		appending.size += bytes;
 		self.dirty.store(true, Ordering::Relaxed);
 		Ok(bytes)
@@ -900,6 +904,8 @@ impl Log {
 				}
 			}
 		}
+		#[cfg(parity_db_verif)]
+		crate::verif::emit("EndRead", &[record_id]);
 		// Reclaim overlay memory
 		for (i, o) in overlays.index.iter_mut().enumerate() {
 			if o.map.capacity() > o.map.len() * INDEX_OVERLAY_RECLAIM_FACTOR {
@@ -947,8 +953,12 @@ impl Log {
 				if self.sync {
 					log::debug!(target: "parity-db", "Flush: Flushing log to disk");
 					try_io!(file.sync_data());
+					#[cfg(parity_db_verif)]
+					crate::verif::emit("LogSync", &[to_flush.id as u64, to_flush.size]);
 					log::debug!(target: "parity-db", "Flush: Flushing log completed");
 				}
+				#[cfg(parity_db_verif)]
+				crate::verif::emit("LogQueued", &[to_flush.id as u64, to_flush.size]);
 				self.read_queue.write().push_back((to_flush.id, file));
 			}
 			return Ok(true)
@@ -967,6 +977,8 @@ impl Log {
 		}
 		if let Some((id, _record_id, file)) = self.replay_queue.write().pop_front() {
 			log::debug!(target: "parity-db", "Replay: Activated log reader {}", id);
+			#[cfg(parity_db_verif)]
+			crate::verif::emit("ReplayFile", &[id as u64, _record_id]);
 			*reading = Some(Reading { id, file: std::io::BufReader::new(file) });
 			Ok(Some(id))
 		} else {
@@ -982,6 +994,8 @@ impl Log {
 		};
 		for (id, ref mut file) in cleaned.iter_mut() {
 			log::debug!(target: "parity-db", "Cleaned: {}", id);
+			#[cfg(parity_db_verif)]
+			crate::verif::emit("LogTruncate", &[*id as u64]);
 			try_io!(file.rewind());
 			try_io!(file.set_len(0));
 			file.sync_all().map_err(Error::Io)?;
@@ -1023,6 +1037,8 @@ impl Log {
 			Err(Error::Io(e)) if e.kind() == ErrorKind::UnexpectedEof => {
 				if let Some(reading) = reader.reading.take() {
 					log::debug!(target: "parity-db", "Read: End of log {}", reading.id);
+					#[cfg(parity_db_verif)]
+					crate::verif::emit("LogEof", &[reading.id as u64]);
 					let file = reading.file.into_inner();
 					self.cleanup_queue.write().push_back((reading.id, file));
 				}
